@@ -4,8 +4,23 @@ use crate::rng::Rng;
 use crate::shapes::*;
 use geo::algorithm::relate::Relate;
 
+fn dim_str(d: geo::dimensions::Dimensions) -> &'static str {
+    use geo::dimensions::Dimensions::*;
+    match d {
+        Empty => "Empty",
+        ZeroDimensional => "ZeroDimensional",
+        OneDimensional => "OneDimensional",
+        TwoDimensional => "TwoDimensional",
+    }
+}
+
 pub fn gen(rng: &mut Rng, _index: u64) -> String {
     let k = *rng.pick(&[3i64, 4, 4, 6]);
+    if rng.chance(1, 10) {
+        // HasDimensions (feeds the disjoint-envelope shortcut): any geometry, valid or degenerate
+        let g = if rng.chance(1, 2) { gen_valid(rng, k) } else { crate::gen::gen_any_geom(rng, k, 2) };
+        return format!("C01.dims {}", proto::geom(&g));
+    }
     let a = gen_valid(rng, k);
     let b = gen_valid(rng, k);
     let a2 = variant(rng, &a);
@@ -37,6 +52,11 @@ fn im(a: &geo_types::Geometry<f64>, b: &geo_types::Geometry<f64>) -> String {
 
 pub fn eval(op: &str, t: &mut Toks) -> R<String> {
     match op {
+        "C01.dims" => {
+            use geo::dimensions::HasDimensions;
+            let g = t.geom()?;
+            Ok(format!("{} {} {}", dim_str(g.dimensions()), dim_str(g.boundary_dimensions()), g.is_empty()))
+        }
         "C01.rel" => {
             let a = t.geom()?;
             let a2 = t.geom()?;
